@@ -305,6 +305,34 @@ def run(ctx):
         events.append({"kind": "cmpany", "n": n, "out": bits(out) if isinstance(out, binary_sequence) else [2]})
         meta.append(("cmpany", op))
         ctx.case(("cmpany", op, noise is not None, thr_arr))
+    # data that are not 1-D sequences of 0/1: the documented errors (ValueError / TypeError), whatever the shape of the offending input
+    bad_inputs = [2, -1, 0.5, None, 1.5, [[0, 1], [1, 2]], "0 1; 1 2", [[0, 1], [1, 0]], np.array([[1, 0, 1]]), [0, 1, 2], "012", "0101\n", "01\t01", "1\r", "0\xa01",
+                  "0b1", [0.5, 1], [1, None], np.array([0, 1, 3], dtype=np.uint8), [[[0]]], [-1, 1], np.array([1.0, 0.0, 1e-9]), {"a": 1}, "ab"]
+    for bi_ in bad_inputs:
+        try:
+            with deadline(30):
+                made = binary_sequence(bi_)
+            outcome = "accepted:" + str(np.asarray(made.data).shape)
+        except (ValueError, TypeError) as e_:
+            outcome = type(e_).__name__
+        except Exception as e_:
+            outcome = "other:" + type(e_).__name__
+        if outcome.startswith(("accepted", "other")):
+            ctx.violation("ctor:invalid-input-not-rejected", f"binary_sequence({bi_!r}): {outcome} instead of ValueError/TypeError", {"input": repr(bi_)})
+        a_ = mk([1, 0, 1])
+        if isinstance(bi_, str):
+            for form_ in ("a+s", "s+a"):
+                try:
+                    with deadline(30):
+                        r_ = (a_ + bi_) if form_ == "a+s" else (bi_ + a_)
+                    outcome = "accepted:" + str(len(r_))
+                except (ValueError, TypeError) as e_:
+                    outcome = type(e_).__name__
+                except Exception as e_:
+                    outcome = "other:" + type(e_).__name__
+                if outcome.startswith(("accepted", "other")):
+                    ctx.violation("cat:invalid-operand-not-rejected", f"{form_} with s = {bi_!r}: {outcome} instead of ValueError/TypeError", {"operand": repr(bi_)})
+        ctx.case(("ctor-invalid", type(bi_).__name__), None, nontrivial=False)
     # 64-bit counts of several 10^9 (beyond TLC's integers: compared here with Python's exact integers)
     for _ in range(40 if T else 10):
         n = rnd.choice([1, 4, 33])
